@@ -98,13 +98,16 @@ Needs(v) ==
     [] v = "edge_lon"                -> EdgeLL \cup EdgeXYZ \cup NodeXYZ \cup Edges
     [] v = "edge_x"                  -> EdgeLL \cup EdgeXYZ \cup NodeXYZ \cup Edges
     [] v = "edge_node_z"             -> NodeXYZ \cup Edges \cup { "edge_node_z" }
-    [] v = "face_areas"              -> { "face_areas", "n_nodes_per_face" }
-    [] v = "face_jacobian"           -> { "face_areas", "n_nodes_per_face" }
-    [] v = "bounds"                  -> FaceEdges \cup NodeXYZ \cup { "bounds", "n_nodes_per_face" }
-    [] v = "edge_node_distances"     -> Edges \cup { "edge_node_distances" }
+    [] v = "face_areas"              -> NodeLL \cup { "face_areas", "n_nodes_per_face" }
+    [] v = "face_jacobian"           -> NodeLL \cup { "face_areas", "n_nodes_per_face" }
+    [] v = "bounds"                  -> FaceEdges \cup NodeXYZ \cup NodeLL \cup { "bounds" }
+    [] v = "edge_node_distances"     -> Edges \cup NodeLL \cup { "edge_node_distances" }
     [] v = "edge_face_distances"     -> EdgeFaces \cup FaceLL \cup FaceXYZ \cup NodeXYZ \cup { "edge_face_distances" }
-    [] v = "antimeridian_face_indices" -> { "n_nodes_per_face" }
+    [] v = "antimeridian_face_indices" -> NodeLL \cup { "n_nodes_per_face" }
     [] OTHER                         -> {}
+
+\* polygons / lines are built from node longitudes and latitudes
+PlotNeeds == NodeLL \cup { "n_nodes_per_face" }
 
 (* ---- state -------------------------------------------------------------- *)
 VARIABLES
@@ -133,9 +136,13 @@ TreeRec(k, s, m) == [kind |-> k, sys |-> s, metric |-> m]
 \* were STORED next to it, extra data columns written into the object, caller edits
 CacheRec(built, key) == [built |-> built, key |-> key, cols |-> {}, edited |-> FALSE]
 
-Init ==
+\* what a source supplies: lon/lat nodes (most readers) or Cartesian nodes only (face-vertex arrays)
+SrcLonLat == { "face_node_connectivity" } \cup NodeLL
+SrcXYZ    == { "face_node_connectivity" } \cup NodeXYZ
+
+InitWith(S) ==
   /\ ds = [h \in Handles |-> IF h \in Base THEN h ELSE 0]
-  /\ store = [d \in DsIds |-> IF \E h \in Base : ds[h] = d THEN { "face_node_connectivity" } \cup NodeLL ELSE {}]
+  /\ store = [d \in DsIds |-> IF d \in Base THEN S[d] ELSE {}]
   /\ ver   = [d \in DsIds |-> 0]
   /\ ideal = [h \in Handles |-> 0]
   /\ ball = [h \in Handles |-> NoObj] /\ kd = [h \in Handles |-> NoObj]
@@ -144,6 +151,9 @@ Init ==
   /\ tmpl = {}
   /\ exports = {}
   /\ last = [act |-> "Open", h |-> 0, args |-> <<>>, obs |-> <<>>, want |-> <<>>]
+
+\* handle 1 opened from a lon/lat source, every other base handle from an xyz-only source
+Init == InitWith([d \in DsIds |-> IF d = 1 THEN SrcLonLat ELSE SrcXYZ])
 
 Materialise(h, S) == store' = [store EXCEPT ![D(h)] = @ \cup S]
 
@@ -167,7 +177,7 @@ Access(h, v) ==
 
 ComputeAreas(h, a) ==
   /\ Live(h)
-  /\ Materialise(h, { "n_nodes_per_face" } \cup (IF a[3] THEN {} ELSE NodeXYZ))
+  /\ Materialise(h, { "n_nodes_per_face" } \cup (IF a[3] THEN NodeLL ELSE NodeXYZ))
   /\ jac' = IF Mech.jacSlot = "last_compute" THEN [jac EXCEPT ![h] = a] ELSE jac
   /\ Obs("ComputeAreas", h, a, <<ver[D(h)], a>>, <<ideal[h], a>>)
   /\ UNCHANGED << ds, ver, ideal, ball, kd, gdf, poly, line, tmpl, exports >>
@@ -186,7 +196,7 @@ GetTree(which, h, k, s, m, rec) ==
                THEN [cur EXCEPT !.kind = IF "kind" \in Mech.treeSwitch THEN k ELSE @]
                ELSE TreeRec(k, s, m)
   IN /\ Live(h)
-     /\ Materialise(h, CASE k = "nodes" -> IF s = "cartesian" THEN NodeXYZ ELSE {}
+     /\ Materialise(h, CASE k = "nodes" -> IF s = "cartesian" THEN NodeXYZ ELSE NodeLL
                          [] k = "faces" -> Needs("face_lon")
                          [] k = "edges" -> Needs("edge_lon"))
      /\ IF which = "ball" THEN ball' = [ball EXCEPT ![h] = new] /\ kd' = kd
@@ -207,7 +217,7 @@ ToGdf(h, pe, pr, en, cache, override) ==
       hit == Hit(gdf[h], req, Mech.gdfCmp, override)
       ret == IF hit THEN gdf[h] ELSE CacheRec(req, KeyOf(req, Mech.gdfStore))
   IN /\ Live(h) /\ (pe = "split" => pr = "none")
-     /\ Materialise(h, { "n_nodes_per_face" })
+     /\ Materialise(h, PlotNeeds)
      /\ gdf' = IF ~hit /\ cache THEN [gdf EXCEPT ![h] = ret] ELSE gdf
      /\ Obs("ToGdf", h, <<pe, pr, en, cache, override>>,
             <<ver[D(h)], ret.built, ret.cols, ret.edited>>, <<ideal[h], req, {}, FALSE>>)
@@ -220,7 +230,7 @@ DataToGdf(h, pe, en, col) ==
       base == IF hit THEN gdf[h] ELSE CacheRec(req, KeyOf(req, Mech.gdfStore))
       withcol == [base EXCEPT !.cols = @ \cup { col }]
   IN /\ Live(h) /\ pe # "split"
-     /\ Materialise(h, { "n_nodes_per_face" })
+     /\ Materialise(h, PlotNeeds)
      /\ gdf' = [gdf EXCEPT ![h] = IF Mech.dataColInto = "cached" THEN withcol ELSE base]
      /\ Obs("DataToGdf", h, <<pe, en, col>>,
             <<ver[D(h)], base.built, withcol.cols, base.edited>>, <<ideal[h], req, { col }, FALSE>>)
@@ -231,7 +241,7 @@ ToPoly(h, pe, pr, cache, override) ==
       hit == Hit(poly[h], req, Mech.polyCmp, override)
       ret == IF hit THEN poly[h] ELSE CacheRec(req, KeyOf(req, Mech.polyStore))
   IN /\ Live(h) /\ (pe = "split" => pr = "none")
-     /\ Materialise(h, { "n_nodes_per_face" })
+     /\ Materialise(h, PlotNeeds)
      /\ poly' = IF ~hit /\ cache THEN [poly EXCEPT ![h] = ret] ELSE poly
      /\ Obs("ToPoly", h, <<pe, pr, cache, override>>,
             <<ver[D(h)], ret.built, ret.edited>>, <<ideal[h], req, FALSE>>)
@@ -242,7 +252,7 @@ ToLine(h, pe, pr, cache, override) ==
       hit == Hit(line[h], req, Mech.lineCmp, override)
       ret == IF hit THEN line[h] ELSE CacheRec(req, KeyOf(req, Mech.lineStore))
   IN /\ Live(h) /\ (pe = "split" => pr = "none")
-     /\ Materialise(h, { "n_nodes_per_face" })
+     /\ Materialise(h, PlotNeeds)
      /\ line' = IF ~hit /\ cache THEN [line EXCEPT ![h] = ret] ELSE line
      /\ Obs("ToLine", h, <<pe, pr, cache, override>>,
             <<ver[D(h)], ret.built, ret.edited>>, <<ideal[h], req, FALSE>>)
@@ -276,7 +286,8 @@ Derive(h, how) ==
                       [] how = "isel_node" -> FaceEdges \cup { "node_face_connectivity" }
                       [] how = "isel_edge" -> EdgeFaces
                       [] how = "xsec"      -> EdgeFaces \cup NodeXYZ \cup { "edge_node_z" }
-                      [] how = "dual"      -> Needs("face_lon") \cup { "node_face_connectivity" }
+                      [] how = "dual"      -> Needs("face_lon") \cup NodeLL \cup { "node_face_connectivity" }
+                      [] how = "bbox"      -> FaceEdges \cup NodeLL \cup { "node_face_connectivity" }
                       [] OTHER             -> {})
   /\ Obs("Derive", h, <<how>>, <<ver[D(h)]>>, <<ideal[h]>>)
   /\ UNCHANGED << ds, ver, ideal, ball, kd, gdf, poly, line, jac, tmpl, exports >>
@@ -332,17 +343,20 @@ EditReturned(h, what) ==
   /\ UNCHANGED << ds, store, ver, ideal, ball, kd, jac, tmpl, exports >>
 
 (* ---- next-state relations ------------------------------------------------ *)
-Families == { "access", "areas", "trees", "plot", "data", "export", "derive", "chunk", "mutate", "edit", "copy" }
-On(f) == f \in Focus
+Families == { "access", "areas", "trees", "plot", "data", "export", "derive", "chunk", "mutate", "edit", "copy",
+              "flags", "metrics", "all" }   \* "flags": cache/override variants; "metrics": non-default metrics
+On(f) == f \in Focus \/ "all" \in Focus
+FlagVals(dflt) == IF On("flags") THEN BOOLEAN ELSE { dflt }
+MetricsOn(S) == IF On("metrics") THEN S ELSE S \ { "chebyshev" }
 
 ReadOnly ==
   \E h \in Handles :
     \/ On("access") /\ \E v \in VarNames : Access(h, v)
     \/ On("areas") /\ \E a \in AreaArgs : ComputeAreas(h, a)
     \/ On("trees") /\ \E k \in Kinds, s \in Systems, rec \in BOOLEAN :
-         \/ \E m \in BallMetrics(s) : GetTree("ball", h, k, s, m, rec)
-         \/ \E m \in KdMetrics(s) : GetTree("kd", h, k, s, m, rec)
-    \/ On("plot") /\ \E pe \in PEs, pr \in Projs, cache \in BOOLEAN, override \in BOOLEAN :
+         \/ \E m \in MetricsOn(BallMetrics(s)) : GetTree("ball", h, k, s, m, rec)
+         \/ \E m \in MetricsOn(KdMetrics(s)) : GetTree("kd", h, k, s, m, rec)
+    \/ On("plot") /\ \E pe \in PEs, pr \in Projs, cache \in FlagVals(TRUE), override \in FlagVals(FALSE) :
          \/ \E en \in Engs : ToGdf(h, pe, pr, en, cache, override)
          \/ ToPoly(h, pe, pr, cache, override)
          \/ ToLine(h, pe, pr, cache, override)
